@@ -124,6 +124,7 @@ func C10_Events() {
 	wd.prefix(env.Param("prefix"))
 	lg.check()
 	n := wd.n
+	n.bu.Lenient = env.ParamOr("lenient", 0) == 1
 	var prev *interfaces.ConsensusRawMessage
 	div := 1
 	for i := 1; i < nEvents; i++ {
@@ -139,7 +140,13 @@ func C10_Events() {
 			hdr := newSymRef("e")
 			snd := newSymSender(wd.reg, "e_s", uint64(hdr.height), hdr.raw)
 			c := (&protocol.PreprepareContentBuilder{SignedHeader: hdr.b, Sender: snd.b}).Build()
-			raw = interfaces.NewPreprepareMessage(c, symBlock("e_blk")).ToConsensusRawMessage()
+			var blk interfaces.Block
+			if n.bu.Lenient && env.NondetBool("e_blockless") {
+				// the envelope carries no block
+			} else {
+				blk = symBlock("e_blk")
+			}
+			raw = interfaces.NewPreprepareMessage(c, blk).ToConsensusRawMessage()
 		case 1:
 			raw = symPrepareRaw(wd, "e")
 		case 2:
@@ -190,6 +197,10 @@ func C10_Events() {
 			}
 			blk := &stub.Block{H: 1, Tag: env.NondetU8("nv_tag"), ProposalOK: true}
 			raw = wd.net.nvm(ldr, 1, v, votes, blk).ToConsensusRawMessage()
+		case 9:
+			// the host re-syncs the block the current round already builds on (UpdateState with height-1): a no-op
+			cur := n.m.state.Height()
+			wd.sync(&stub.Block{H: cur - 1})
 		case 8:
 			// a late (or re-delivered) genuine proof-less vote of some other member for the node's current view
 			j := othersOf(wd.me)[env.Choice("late_voter", 3)]
@@ -198,7 +209,7 @@ func C10_Events() {
 		if raw != nil {
 			n.deliver(raw)
 			prev = raw
-			if !n.influenced(s0) && i < nEvents-1 && kind <= 6 {
+			if !n.influenced(s0) && i < nEvents-1 && kind <= 6 && !n.bu.Lenient {
 				return
 			}
 		}
